@@ -8,7 +8,7 @@ prop=$1; wt=$2; name=${3:-$prop-1}; shift 3 2>/dev/null || shift 2
 extra="$@"
 home=/tmp/mut_home_${wt##*/mut_}
 cd "$wt" || exit 2
-run_demo() { (cd "$wt" && HOME=$home PYTHONPATH=$wt timeout 900 /venv/bin/python out/demo.py >/tmp/demo_$name.log 2>&1; echo $?); }
+run_demo() { (cd "$wt" && HOME=$home PYTHONPATH=$wt:$wt/selftests/isolation timeout 900 /venv/bin/python out/demo.py >/tmp/demo_$name.log 2>&1; echo $?); }
 if [ -s out/patch.diff ]; then cp out/patch.diff /tmp/patch_$name.diff; else git diff -- avocado_i2n > /tmp/patch_$name.diff; fi
 # (never git stash here: the stash is shared by all worktrees of /repo)
 git checkout -q -- avocado_i2n && git apply /tmp/patch_$name.diff
